@@ -28,7 +28,66 @@ func runGenericContracts(c *Ctx) {
 	runContracts(c, cs, opt, defaultSolve())
 	if c.Prop == "C17" {
 		sweepLocks(c, cs, opt)
+		sweepSharedPrinter(c, cs, opt)
 	}
+}
+
+// sweepSharedPrinter: the package-wide contract `every-function <pkg> shared-printer-kept`: a function that asks
+// for the process-wide printer (slip.DefaultPrinter()) works on a copy of it - it never stores through the pointer
+// and never hands the pointer to a function that stores to Printer fields (Printer.ScopedUpdate): the print settings
+// a routine binds with let stay its own, and nothing a routine prints changes what another one prints.
+func sweepSharedPrinter(c *Ctx, cs *vc.Contracts, opt vc.Options) {
+	pkgs := map[string]bool{}
+	for _, p := range cs.Sweeps["shared-printer-kept"] {
+		pkgs[p] = true
+	}
+	if len(pkgs) == 0 {
+		return
+	}
+	var names []string
+	for n := range c.P.Funcs {
+		names = append(names, n)
+	}
+	sort.Strings(names)
+	post, err := vc.ParseClauseText("shared-printer-kept: $nstore_sharedprinter == 0")
+	if err != nil {
+		panic(err)
+	}
+	var roots []*ssa.Function
+	for _, n := range names {
+		fn := c.P.Funcs[n]
+		if !pkgs[pkgShort(fn)] || len(fn.Blocks) == 0 || fn.Parent() != nil || !callsDefaultPrinter(fn) {
+			continue
+		}
+		if ct := cs.ByFunc[n]; ct != nil {
+			continue // a function with a contract of its own states what it does with the printer there
+		}
+		cs.ByFunc[n] = &vc.Contract{Func: n, Loops: map[string][]*vc.Clause{}, Options: map[string]bool{}, Props: []string{"C17"}, CountStores: []string{"sharedprinter"}, Ensures: []*vc.Clause{post}}
+		roots = append(roots, fn)
+	}
+	o := opt
+	o.Contracts = cs
+	res := c.runUnits(roots, o, defaultSolve(), 16)
+	c.addResults(res)
+	c.Extra["shared_printer_sweep_functions"] = len(roots)
+}
+
+func callsDefaultPrinter(fn *ssa.Function) bool {
+	for _, b := range fn.Blocks {
+		for _, in := range b.Instrs {
+			if cl, ok := in.(*ssa.Call); ok {
+				if f := cl.Call.StaticCallee(); f != nil && f.Name() == "DefaultPrinter" && f.Pkg != nil && f.Pkg.Pkg != nil && f.Pkg.Pkg.Path() == vc.ModPath {
+					return true
+				}
+			}
+		}
+	}
+	for _, an := range fn.AnonFuncs {
+		if callsDefaultPrinter(an) {
+			return true
+		}
+	}
+	return false
 }
 
 // sweepLocks: the package-wide contract `every-function <pkg> lock-balance`: a function that takes a sync
